@@ -566,8 +566,18 @@ static unsigned char *
 recvrec_buf(const br_ssl_engine_context *rc, size_t *len)
 {
 	if (rc->shutdown_recv) {
-		*len = 0;
-		return NULL;
+		/*
+		 * A close_notify was received: no further record is
+		 * accepted. However, unencrypted records are processed
+		 * by chunks, so the alert may have been seen before the
+		 * end of its record; the remainder of that record must
+		 * still be received (it is ignored), otherwise a shared
+		 * buffer is never released for our own close_notify.
+		 */
+		if (br_ssl_engine_recvrec_finished(rc)) {
+			*len = 0;
+			return NULL;
+		}
 	}
 
 	/*
@@ -1226,6 +1236,15 @@ br_ssl_engine_recvrec_ack(br_ssl_engine_context *cc, size_t len)
 	 * them according to the record type.
 	 */
 	buf = recvpld_buf(cc, &len);
+	if (buf != NULL && cc->shutdown_recv) {
+		/*
+		 * Remainder of the record that contained the peer's
+		 * close_notify: it is ignored.
+		 */
+		recvpld_ack(cc, len);
+		jump_handshake(cc, 0);
+		return;
+	}
 	if (buf != NULL) {
 		switch (cc->record_type_in) {
 		case BR_SSL_CHANGE_CIPHER_SPEC:
